@@ -14,7 +14,11 @@ and then states, as a list of facts,
     holds exactly the entries the element depends on, once each, in evaluation order; out-of-range reads raise
     IndexError and evaluate nothing; iteration yields the same values and evaluates each element once;
   * the receiver (and any other LazyList operand) still has the same _callables list object holding the
-    identical thunks, and behaves exactly as before (checked again through the same reader).
+    identical thunks, and reads exactly as before (every element again, by positive index).
+
+The raising / raising_index_error conditions put an element whose evaluation raises into the list: the error must
+belong to that element alone (operations stay lazy, reading it raises exactly that error, iteration yields what comes
+before and then surfaces the same error -- never a silently shorter list).
 
 Conventions that the driver (harness/c19.py) relies on:
   * every public condition NAME has a builder _NAME(...) returning a _Facts object, a twin NAME__reach with
@@ -149,7 +153,7 @@ def _unchanged(w, fx, name, snap, model):
         for a, b in zip(cur, elems):
             same = same and a is b
     fx.true((name, "same_thunks"), same)
-    _check(w, fx, name, ll, model)
+    _check(w, fx, name, ll, model, light=True)
 
 
 def _check(w, fx, name, ll, model, light=False):
@@ -203,7 +207,6 @@ def _vals(n, *vs):
 
 # =========================================================================== len / iteration / constructors
 def _base(v0, v1, v2, v3, n, kind):
-    _tick("base")
     n = _conc(n, 0, 4)
     kind = _conc(kind, 0, 2)
     fx = _Facts()
@@ -220,6 +223,7 @@ def _base(v0, v1, v2, v3, n, kind):
     snap = _snap(ll)
     _check(w, fx, "base", ll, model)
     _unchanged(w, fx, "again", snap, model)
+    _check(w, fx, "base_again", ll, model)
     fx.deep = n > 0
     return fx
 
@@ -230,6 +234,7 @@ def base(v0: int, v1: int, v2: int, v3: int, n: int, kind: int) -> bool:
     pre: 0 <= kind <= 2
     post: __return__
     """
+    _tick("base")
     return _holds(_base(v0, v1, v2, v3, n, kind))
 
 
@@ -239,6 +244,7 @@ def base__reach(v0: int, v1: int, v2: int, v3: int, n: int, kind: int) -> bool:
     pre: 0 <= kind <= 2
     post: not __return__
     """
+    _tick("base__reach")
     return _base(v0, v1, v2, v3, n, kind).deep
 
 
@@ -254,7 +260,6 @@ class _Idx(object):
 
 
 def _index_int(v0, v1, v2, v3, n, k, kind):
-    _tick("index_int")
     n = _conc(n, 0, 4)
     k = _conc(k, -6, 6)
     kind = _conc(kind, 0, 2)
@@ -286,6 +291,7 @@ def index_int(v0: int, v1: int, v2: int, v3: int, n: int, k: int, kind: int) -> 
     pre: 0 <= kind <= 2
     post: __return__
     """
+    _tick("index_int")
     return _holds(_index_int(v0, v1, v2, v3, n, k, kind))
 
 
@@ -296,12 +302,12 @@ def index_int__reach(v0: int, v1: int, v2: int, v3: int, n: int, k: int, kind: i
     pre: 0 <= kind <= 2
     post: not __return__
     """
+    _tick("index_int__reach")
     return _index_int(v0, v1, v2, v3, n, k, kind).deep
 
 
 # =========================================================================== slices
 def _slice_case(name, vals, start, stop, step):
-    _tick(name)
     fx = _Facts()
     w = _W()
     ll, model = w.lazy(vals)
@@ -328,6 +334,11 @@ def _slice_case(name, vals, start, stop, step):
     return fx
 
 
+def _near(n, x):
+    """x ranges over one step beyond what a list of length n distinguishes: [-n-1, n+1]"""
+    return -n - 1 <= x <= n + 1
+
+
 def _slice_sss(v0, v1, v2, v3, n, start, stop, step):
     n = _conc(n, 0, 3)
     return _slice_case("slice_sss", _vals(n, v0, v1, v2, v3), _conc(start, -5, 5), _conc(stop, -5, 5),
@@ -340,9 +351,13 @@ def slice_sss(v0: int, v1: int, v2: int, v3: int, n: int, start: int, stop: int,
     pre: -5 <= start <= 5
     pre: -5 <= stop <= 5
     pre: -4 <= step <= 4
+    pre: _near(n, start)
+    pre: _near(n, stop)
+    pre: _near(n, step)
     pre: _shard(start)
     post: __return__
     """
+    _tick("slice_sss")
     return _holds(_slice_sss(v0, v1, v2, v3, n, start, stop, step))
 
 
@@ -352,8 +367,37 @@ def slice_sss__reach(v0: int, v1: int, v2: int, v3: int, n: int, start: int, sto
     pre: -5 <= start <= 5
     pre: -5 <= stop <= 5
     pre: -4 <= step <= 4
+    pre: _near(n, start)
+    pre: _near(n, stop)
+    pre: _near(n, step)
     post: not __return__
     """
+    _tick("slice_sss__reach")
+    return _slice_sss(v0, v1, v2, v3, n, start, stop, step).deep
+
+
+def slice_sss_wide(v0: int, v1: int, v2: int, v3: int, n: int, start: int, stop: int, step: int) -> bool:
+    """
+    pre: 0 <= n <= 3
+    pre: -5 <= start <= 5
+    pre: -5 <= stop <= 5
+    pre: -4 <= step <= 4
+    pre: _shard(start)
+    post: __return__
+    """
+    _tick("slice_sss_wide")
+    return _holds(_slice_sss(v0, v1, v2, v3, n, start, stop, step))
+
+
+def slice_sss_wide__reach(v0: int, v1: int, v2: int, v3: int, n: int, start: int, stop: int, step: int) -> bool:
+    """
+    pre: 0 <= n <= 3
+    pre: -5 <= start <= 5
+    pre: -5 <= stop <= 5
+    pre: -4 <= step <= 4
+    post: not __return__
+    """
+    _tick("slice_sss_wide__reach")
     return _slice_sss(v0, v1, v2, v3, n, start, stop, step).deep
 
 
@@ -370,6 +414,7 @@ def slice_sss4(v0: int, v1: int, v2: int, v3: int, start: int, stop: int, step: 
     pre: _shard(start)
     post: __return__
     """
+    _tick("slice_sss4")
     return _holds(_slice_sss4(v0, v1, v2, v3, start, stop, step))
 
 
@@ -380,11 +425,12 @@ def slice_sss4__reach(v0: int, v1: int, v2: int, v3: int, start: int, stop: int,
     pre: -5 <= step <= 5
     post: not __return__
     """
+    _tick("slice_sss4__reach")
     return _slice_sss4(v0, v1, v2, v3, start, stop, step).deep
 
 
 _PATTERNS = {  # which of (start, stop, step) are None
-    0: (False, False, False), 1: (True, True, True), 2: (False, True, True), 3: (True, False, True),
+    1: (True, True, True), 2: (False, True, True), 3: (True, False, True),
     4: (True, True, False), 5: (False, False, True), 6: (False, True, False), 7: (True, False, False),
 }
 
@@ -393,19 +439,25 @@ def _slice_none(v0, v1, v2, v3, n, pat, a, b):
     """the seven slice shapes with at least one None: a is the first given field, b the second"""
     n = _conc(n, 0, 4)
     pat = _conc(pat, 1, 7)
-    a = _conc(a, -6, 6)
-    b = _conc(b, -6, 6)
-    given = [a, b]
+    given = [_conc(a, -6, 6), _conc(b, -6, 6)]
     fields = []
     for is_none in _PATTERNS[pat]:
         fields.append(None if is_none else given.pop(0))
-    # canonical form: unused fields are 0 (the driver / preconditions keep only those)
     return _slice_case("slice_none", _vals(n, v0, v1, v2, v3), fields[0], fields[1], fields[2])
 
 
-def _slice_none_pre(pat, a, b):
-    used = 3 - sum(_PATTERNS[pat]) if 1 <= pat <= 7 else 0
-    return (used >= 1 or a == 0) and (used >= 2 or b == 0)
+def _given(pat):
+    """number of integer fields of slice pattern pat"""
+    return 3 - sum(_PATTERNS[pat]) if 1 <= pat <= 7 else 0
+
+
+def _used(pat, which, x):
+    """canonical form: a field that the pattern does not use is 0"""
+    return _given(pat) >= which or x == 0
+
+
+def _used_near(n, pat, which, x):
+    return _near(n, x) if _given(pat) >= which else x == 0
 
 
 def slice_none(v0: int, v1: int, v2: int, v3: int, n: int, pat: int, a: int, b: int) -> bool:
@@ -414,10 +466,12 @@ def slice_none(v0: int, v1: int, v2: int, v3: int, n: int, pat: int, a: int, b: 
     pre: 1 <= pat <= 7
     pre: -6 <= a <= 6
     pre: -6 <= b <= 6
-    pre: _slice_none_pre(pat, a, b)
+    pre: _used_near(n, pat, 1, a)
+    pre: _used_near(n, pat, 2, b)
     pre: _shard(a)
     post: __return__
     """
+    _tick("slice_none")
     return _holds(_slice_none(v0, v1, v2, v3, n, pat, a, b))
 
 
@@ -427,9 +481,40 @@ def slice_none__reach(v0: int, v1: int, v2: int, v3: int, n: int, pat: int, a: i
     pre: 1 <= pat <= 7
     pre: -6 <= a <= 6
     pre: -6 <= b <= 6
-    pre: _slice_none_pre(pat, a, b)
+    pre: _used_near(n, pat, 1, a)
+    pre: _used_near(n, pat, 2, b)
     post: not __return__
     """
+    _tick("slice_none__reach")
+    return _slice_none(v0, v1, v2, v3, n, pat, a, b).deep
+
+
+def slice_none_wide(v0: int, v1: int, v2: int, v3: int, n: int, pat: int, a: int, b: int) -> bool:
+    """
+    pre: 0 <= n <= 4
+    pre: 1 <= pat <= 7
+    pre: -6 <= a <= 6
+    pre: -6 <= b <= 6
+    pre: _used(pat, 1, a)
+    pre: _used(pat, 2, b)
+    pre: _shard(a)
+    post: __return__
+    """
+    _tick("slice_none_wide")
+    return _holds(_slice_none(v0, v1, v2, v3, n, pat, a, b))
+
+
+def slice_none_wide__reach(v0: int, v1: int, v2: int, v3: int, n: int, pat: int, a: int, b: int) -> bool:
+    """
+    pre: 0 <= n <= 4
+    pre: 1 <= pat <= 7
+    pre: -6 <= a <= 6
+    pre: -6 <= b <= 6
+    pre: _used(pat, 1, a)
+    pre: _used(pat, 2, b)
+    post: not __return__
+    """
+    _tick("slice_none_wide__reach")
     return _slice_none(v0, v1, v2, v3, n, pat, a, b).deep
 
 
@@ -449,7 +534,6 @@ def _container(kind, idx):
 
 
 def _fancy_case(name, vals, idx, kind):
-    _tick(name)
     fx = _Facts()
     w = _W()
     n = len(vals)
@@ -483,35 +567,70 @@ def _fancy(v0, v1, v2, v3, n, m, i0, i1, kind):
     return _fancy_case("fancy", _vals(n, v0, v1, v2, v3), idx, _conc(kind, 0, 5))
 
 
-def _fancy_pre(n, m, i0, i1):
-    """indices range over [-n-1, n] (one step outside the valid range on each side); unused ones are 0"""
-    return (-n - 1 <= i0 <= n if m >= 1 else i0 == 0) and (-n - 1 <= i1 <= n if m >= 2 else i1 == 0)
+def _entry(n, m, which, i):
+    """index entries range over [-n-1, n] (one step outside the valid range on each side); unused ones are 0"""
+    return -n - 1 <= i <= n if m >= which else i == 0
 
 
 def fancy(v0: int, v1: int, v2: int, v3: int, n: int, m: int, i0: int, i1: int, kind: int) -> bool:
     """
-    pre: 0 <= n <= 4
+    pre: 0 <= n <= 3
     pre: 0 <= m <= 2
     pre: -5 <= i0 <= 4
     pre: -5 <= i1 <= 4
     pre: 0 <= kind <= 5
-    pre: _fancy_pre(n, m, i0, i1)
+    pre: _entry(n, m, 1, i0)
+    pre: _entry(n, m, 2, i1)
     pre: _shard(kind)
     post: __return__
     """
+    _tick("fancy")
     return _holds(_fancy(v0, v1, v2, v3, n, m, i0, i1, kind))
 
 
 def fancy__reach(v0: int, v1: int, v2: int, v3: int, n: int, m: int, i0: int, i1: int, kind: int) -> bool:
     """
+    pre: 0 <= n <= 3
+    pre: 0 <= m <= 2
+    pre: -5 <= i0 <= 4
+    pre: -5 <= i1 <= 4
+    pre: 0 <= kind <= 5
+    pre: _entry(n, m, 1, i0)
+    pre: _entry(n, m, 2, i1)
+    post: not __return__
+    """
+    _tick("fancy__reach")
+    return _fancy(v0, v1, v2, v3, n, m, i0, i1, kind).deep
+
+
+def fancy_wide(v0: int, v1: int, v2: int, v3: int, n: int, m: int, i0: int, i1: int, kind: int) -> bool:
+    """
     pre: 0 <= n <= 4
     pre: 0 <= m <= 2
     pre: -5 <= i0 <= 4
     pre: -5 <= i1 <= 4
     pre: 0 <= kind <= 5
-    pre: _fancy_pre(n, m, i0, i1)
+    pre: _entry(n, m, 1, i0)
+    pre: _entry(n, m, 2, i1)
+    pre: _shard(kind + 6 * i0)
+    post: __return__
+    """
+    _tick("fancy_wide")
+    return _holds(_fancy(v0, v1, v2, v3, n, m, i0, i1, kind))
+
+
+def fancy_wide__reach(v0: int, v1: int, v2: int, v3: int, n: int, m: int, i0: int, i1: int, kind: int) -> bool:
+    """
+    pre: 0 <= n <= 4
+    pre: 0 <= m <= 2
+    pre: -5 <= i0 <= 4
+    pre: -5 <= i1 <= 4
+    pre: 0 <= kind <= 5
+    pre: _entry(n, m, 1, i0)
+    pre: _entry(n, m, 2, i1)
     post: not __return__
     """
+    _tick("fancy_wide__reach")
     return _fancy(v0, v1, v2, v3, n, m, i0, i1, kind).deep
 
 
@@ -521,10 +640,6 @@ def _fancy3(v0, v1, v2, n, i0, i1, i2, kind):
     return _fancy_case("fancy3", _vals(n, v0, v1, v2), idx, _conc(kind, 0, 2) * 2)  # list, ndarray, iterator
 
 
-def _fancy3_pre(n, i0, i1, i2):
-    return -n - 1 <= i0 <= n and -n - 1 <= i1 <= n and -n - 1 <= i2 <= n
-
-
 def fancy3(v0: int, v1: int, v2: int, n: int, i0: int, i1: int, i2: int, kind: int) -> bool:
     """
     pre: 1 <= n <= 3
@@ -532,10 +647,13 @@ def fancy3(v0: int, v1: int, v2: int, n: int, i0: int, i1: int, i2: int, kind: i
     pre: -4 <= i1 <= 3
     pre: -4 <= i2 <= 3
     pre: 0 <= kind <= 2
-    pre: _fancy3_pre(n, i0, i1, i2)
+    pre: _entry(n, 3, 1, i0)
+    pre: _entry(n, 3, 2, i1)
+    pre: _entry(n, 3, 3, i2)
     pre: _shard(i0)
     post: __return__
     """
+    _tick("fancy3")
     return _holds(_fancy3(v0, v1, v2, n, i0, i1, i2, kind))
 
 
@@ -546,15 +664,17 @@ def fancy3__reach(v0: int, v1: int, v2: int, n: int, i0: int, i1: int, i2: int, 
     pre: -4 <= i1 <= 3
     pre: -4 <= i2 <= 3
     pre: 0 <= kind <= 2
-    pre: _fancy3_pre(n, i0, i1, i2)
+    pre: _entry(n, 3, 1, i0)
+    pre: _entry(n, 3, 2, i1)
+    pre: _entry(n, 3, 3, i2)
     post: not __return__
     """
+    _tick("fancy3__reach")
     return _fancy3(v0, v1, v2, n, i0, i1, i2, kind).deep
 
 
 # =========================================================================== repeat
 def _repeat(v0, v1, v2, v3, n, r, kind):
-    _tick("repeat")
     n = _conc(n, 0, 4)
     r = _conc(r, -2, 5)
     kind = _conc(kind, 0, 1)
@@ -578,6 +698,7 @@ def repeat(v0: int, v1: int, v2: int, v3: int, n: int, r: int, kind: int) -> boo
     pre: 0 <= kind <= 1
     post: __return__
     """
+    _tick("repeat")
     return _holds(_repeat(v0, v1, v2, v3, n, r, kind))
 
 
@@ -588,13 +709,13 @@ def repeat__reach(v0: int, v1: int, v2: int, v3: int, n: int, r: int, kind: int)
     pre: 0 <= kind <= 1
     post: not __return__
     """
+    _tick("repeat__reach")
     return _repeat(v0, v1, v2, v3, n, r, kind).deep
 
 
 # =========================================================================== +
 def _add_lazy(v0, v1, v2, v3, u0, u1, u2, n, m, kind):
     """ll + other LazyList (kind 0), ll + ll (1), other + ll (2)"""
-    _tick("add_lazy")
     n = _conc(n, 0, 4)
     m = _conc(m, 0, 3)
     kind = _conc(kind, 0, 2)
@@ -625,6 +746,7 @@ def add_lazy(v0: int, v1: int, v2: int, v3: int, u0: int, u1: int, u2: int, n: i
     pre: 0 <= kind <= 2
     post: __return__
     """
+    _tick("add_lazy")
     return _holds(_add_lazy(v0, v1, v2, v3, u0, u1, u2, n, m, kind))
 
 
@@ -636,12 +758,12 @@ def add_lazy__reach(v0: int, v1: int, v2: int, v3: int, u0: int, u1: int, u2: in
     pre: 0 <= kind <= 2
     post: not __return__
     """
+    _tick("add_lazy__reach")
     return _add_lazy(v0, v1, v2, v3, u0, u1, u2, n, m, kind).deep
 
 
 def _add_plain(v0, v1, v2, v3, p0, p1, p2, n, m, kind):
     """ll + list (0) / tuple (1) / generator (2) / iterator (3) of plain values"""
-    _tick("add_plain")
     n = _conc(n, 0, 4)
     m = _conc(m, 0, 3)
     kind = _conc(kind, 0, 3)
@@ -671,6 +793,7 @@ def add_plain(v0: int, v1: int, v2: int, v3: int, p0: int, p1: int, p2: int, n: 
     pre: 0 <= kind <= 3
     post: __return__
     """
+    _tick("add_plain")
     return _holds(_add_plain(v0, v1, v2, v3, p0, p1, p2, n, m, kind))
 
 
@@ -682,12 +805,12 @@ def add_plain__reach(v0: int, v1: int, v2: int, v3: int, p0: int, p1: int, p2: i
     pre: 0 <= kind <= 3
     post: not __return__
     """
+    _tick("add_plain__reach")
     return _add_plain(v0, v1, v2, v3, p0, p1, p2, n, m, kind).deep
 
 
 def _add_bad(v0, v1, v2, v3, n, kind):
     """+ with something that is neither a LazyList nor iterable: ValueError, nothing evaluated or changed"""
-    _tick("add_bad")
     n = _conc(n, 0, 4)
     kind = _conc(kind, 0, 3)
     fx = _Facts()
@@ -712,6 +835,7 @@ def add_bad(v0: int, v1: int, v2: int, v3: int, n: int, kind: int) -> bool:
     pre: 0 <= kind <= 3
     post: __return__
     """
+    _tick("add_bad")
     return _holds(_add_bad(v0, v1, v2, v3, n, kind))
 
 
@@ -721,12 +845,12 @@ def add_bad__reach(v0: int, v1: int, v2: int, v3: int, n: int, kind: int) -> boo
     pre: 0 <= kind <= 3
     post: not __return__
     """
+    _tick("add_bad__reach")
     return _add_bad(v0, v1, v2, v3, n, kind).deep
 
 
 # =========================================================================== copy
 def _copy(v0, v1, v2, v3, n):
-    _tick("copy")
     n = _conc(n, 0, 4)
     fx = _Facts()
     w = _W()
@@ -753,6 +877,7 @@ def copy(v0: int, v1: int, v2: int, v3: int, n: int) -> bool:
     pre: 0 <= n <= 4
     post: __return__
     """
+    _tick("copy")
     return _holds(_copy(v0, v1, v2, v3, n))
 
 
@@ -761,6 +886,7 @@ def copy__reach(v0: int, v1: int, v2: int, v3: int, n: int) -> bool:
     pre: 0 <= n <= 4
     post: not __return__
     """
+    _tick("copy__reach")
     return _copy(v0, v1, v2, v3, n).deep
 
 
@@ -775,7 +901,6 @@ class _CallableIterable(object):
 
 def _mapping(v0, v1, v2, v3, c0, c1, c2, c3, n, m, kind):
     """kind 0: one callable; 1: list of m callables; 2: tuple of m callables; 3: callable iterable (ambiguous)"""
-    _tick("mapping")
     n = _conc(n, 0, 4)
     m = _conc(m, 0, 5)
     kind = _conc(kind, 0, 3)
@@ -831,6 +956,7 @@ def mapping(v0: int, v1: int, v2: int, v3: int, c0: int, c1: int, c2: int, c3: i
     pre: _map_pre(m, kind)
     post: __return__
     """
+    _tick("mapping")
     return _holds(_mapping(v0, v1, v2, v3, c0, c1, c2, c3, n, m, kind))
 
 
@@ -843,7 +969,124 @@ def mapping__reach(v0: int, v1: int, v2: int, v3: int, c0: int, c1: int, c2: int
     pre: _map_pre(m, kind)
     post: not __return__
     """
+    _tick("mapping__reach")
     return _mapping(v0, v1, v2, v3, c0, c1, c2, c3, n, m, kind).deep
+
+
+# =========================================================================== elements whose evaluation raises
+_EXC = [IndexError, ValueError, KeyError]
+
+
+def _raising(v0, v1, v2, v3, n, j, exc, op):
+    """thunk j raises: the error belongs to that element alone -- operations stay lazy, reading element j (and
+    iterating up to it) raises exactly that error like the plain list of evaluated thunks would, nothing is
+    silently dropped.  op 0: the base list, 1: mapped, 2: repeat(2), 3: ll + ll"""
+    n = _conc(n, 1, 4)
+    j = _conc(j, 0, 3)
+    E = _EXC[_conc(exc, 0, 2)]
+    op = _conc(op, 0, 3)
+    fx = _Facts()
+    w = _W()
+    vals = _vals(n, v0, v1, v2, v3)
+
+    def bad():
+        w.log.append(j)
+        raise E("element %d cannot be evaluated" % j)
+
+    ll, model = w.lazy(vals)
+    ll._callables[j] = bad
+    if op == 1:
+        out, want = ll.map(w.fn("f", 1)), _mapped(model, ["f"] * n, [1] * n)
+        pos = [j]
+    elif op == 2:
+        out, want = ll.repeat(2), [e for e in model for _ in range(2)]
+        pos = [2 * j, 2 * j + 1]
+    elif op == 3:
+        out, want = ll + ll, model + model
+        pos = [j, n + j]
+    else:
+        out, want = ll, model
+        pos = [j]
+    fx.true("is_lazylist", isinstance(out, LazyList))
+    fx.true("len", len(out) == len(want))
+    fx.true("nothing_evaluated", w.log == [])
+    del w.log[:]
+    for k in range(len(want)):
+        if k in pos:
+            try:
+                out[k]
+                fx.true((k, "raises"), False)
+            except E:
+                fx.true((k, "raises"), w.log == [j])
+        else:
+            fx.eq((k, "value"), out[k], want[k][0])
+            fx.true((k, "evaluated"), w.log == list(want[k][1]))
+        del w.log[:]
+    # iteration: everything before the failing element is produced, then the element's own error surfaces
+    seen, raised = [], None
+    try:
+        for x in out:
+            seen.append(x)
+    except E:
+        raised = E
+    fx.true("iteration_yields_the_elements_before", len(seen) == pos[0])
+    for k in range(min(len(seen), pos[0])):
+        fx.eq(("iter_value", k), seen[k], want[k][0])
+    fx.true("iteration_propagates_the_error", raised is E)
+    fx.deep = True
+    return fx
+
+
+def raising(v0: int, v1: int, v2: int, v3: int, n: int, j: int, exc: int, op: int) -> bool:
+    """
+    pre: 1 <= n <= 4
+    pre: 0 <= j <= 3
+    pre: 1 <= exc <= 2
+    pre: 0 <= op <= 3
+    pre: j < n
+    post: __return__
+    """
+    _tick("raising")
+    return _holds(_raising(v0, v1, v2, v3, n, j, exc, op))
+
+
+def raising__reach(v0: int, v1: int, v2: int, v3: int, n: int, j: int, exc: int, op: int) -> bool:
+    """
+    pre: 1 <= n <= 4
+    pre: 0 <= j <= 3
+    pre: 1 <= exc <= 2
+    pre: 0 <= op <= 3
+    pre: j < n
+    post: not __return__
+    """
+    _tick("raising__reach")
+    return _raising(v0, v1, v2, v3, n, j, exc, op).deep
+
+
+def raising_index_error(v0: int, v1: int, v2: int, v3: int, n: int, j: int, exc: int, op: int) -> bool:
+    """
+    pre: 1 <= n <= 4
+    pre: 0 <= j <= 3
+    pre: 0 <= exc <= 0
+    pre: 0 <= op <= 3
+    pre: j < n
+    post: __return__
+    """
+    _tick("raising_index_error")
+    return _holds(_raising(v0, v1, v2, v3, n, j, exc, op))
+
+
+def raising_index_error__reach(v0: int, v1: int, v2: int, v3: int, n: int, j: int, exc: int, op: int) -> bool:
+    """
+    pre: 1 <= n <= 4
+    pre: 0 <= j <= 3
+    pre: 0 <= exc <= 0
+    pre: 0 <= op <= 3
+    pre: j < n
+    post: not __return__
+    """
+    _tick("raising_index_error__reach")
+    return _raising(v0, v1, v2, v3, n, j, exc, op).deep
 
 
 # =========================================================================== programs of several operations
@@ -889,7 +1132,6 @@ def _apply(w, depth, code, ll, model, c, p):
 
 
 def _program(name, vals, codes, c, p):
-    _tick(name)
     fx = _Facts()
     w = _W()
     ll, model = w.lazy(vals)
@@ -922,6 +1164,7 @@ def compose2(v0: int, v1: int, v2: int, c: int, p: int, n: int, op1: int, op2: i
     pre: _shard(op1)
     post: __return__
     """
+    _tick("compose2")
     return _holds(_compose2(v0, v1, v2, c, p, n, op1, op2))
 
 
@@ -932,6 +1175,7 @@ def compose2__reach(v0: int, v1: int, v2: int, c: int, p: int, n: int, op1: int,
     pre: 0 <= op2 <= 13
     post: not __return__
     """
+    _tick("compose2__reach")
     return _compose2(v0, v1, v2, c, p, n, op1, op2).deep
 
 
@@ -950,6 +1194,7 @@ def compose3(v0: int, v1: int, v2: int, c: int, p: int, n: int, op1: int, op2: i
     pre: _shard(op1 * 14 + op2)
     post: __return__
     """
+    _tick("compose3")
     return _holds(_compose3(v0, v1, v2, c, p, n, op1, op2, op3))
 
 
@@ -961,14 +1206,16 @@ def compose3__reach(v0: int, v1: int, v2: int, c: int, p: int, n: int, op1: int,
     pre: 0 <= op3 <= 13
     post: not __return__
     """
+    _tick("compose3__reach")
     return _compose3(v0, v1, v2, c, p, n, op1, op2, op3).deep
 
 
 # =========================================================================== registry / seeded bugs
 BUILDERS = {
-    "base": _base, "index_int": _index_int, "slice_sss": _slice_sss, "slice_sss4": _slice_sss4,
-    "slice_none": _slice_none, "fancy": _fancy, "fancy3": _fancy3, "repeat": _repeat, "add_lazy": _add_lazy,
-    "add_plain": _add_plain, "add_bad": _add_bad, "copy": _copy, "mapping": _mapping, "compose2": _compose2,
+    "base": _base, "index_int": _index_int, "slice_sss": _slice_sss, "slice_sss_wide": _slice_sss,
+    "slice_sss4": _slice_sss4, "slice_none": _slice_none, "slice_none_wide": _slice_none, "fancy": _fancy,
+    "fancy_wide": _fancy, "fancy3": _fancy3, "repeat": _repeat, "add_lazy": _add_lazy,
+    "add_plain": _add_plain, "add_bad": _add_bad, "copy": _copy, "mapping": _mapping, "raising": _raising, "raising_index_error": _raising, "compose2": _compose2,
     "compose3": _compose3,
 }
 
@@ -1001,10 +1248,16 @@ def mutants():
         new = LazyList(self._callables)
         return new
 
-    def repeat_off_by_one_empty(self, n):  # repeat(1) of a 3-element list drops the last element
+    def repeat_drops_one(self, n):  # repeat(2) of a 2-element list loses its last entry
         new = _ORIG["repeat"](self, n)
-        if n == 1 and len(new) == 3:
+        if n == 2 and len(self) == 2:
             new._callables = new._callables[:-1]
+        return new
+
+    def repeat_forgets_map(self, n):  # repeat unwraps mapped elements (visible only after map)
+        new = _ORIG["repeat"](self, n)
+        new._callables = [c.args[1] if isinstance(c, partial) and getattr(c.func, "__name__", "") == "delayed" else c
+                          for c in new._callables]
         return new
 
     def getitem_reverse_twice(self, slice_):  # negative step with explicit negative start mishandled
@@ -1013,13 +1266,19 @@ def mutants():
             return LazyList(self._callables[slice(slice_.start + 1, slice_.stop, slice_.step)])
         return _ORIG["__getitem__"](self, slice_)
 
+    def iter_fixed(self):  # NOT a bug: the suggested repair for the IndexError finding (used to validate it)
+        for c in self._callables:
+            yield c()
+
     return {
+        "fix_iter": ("__iter__", iter_fixed),
         "repeat_tiles": ("repeat", repeat_tiles),
         "slice_eager": ("__getitem__", getitem_eager_slice),
         "map_shares_last": ("map", map_shares_last),
         "add_in_place": ("__add__", add_in_place),
         "copy_alias": ("copy", copy_alias),
-        "repeat_drops_one": ("repeat", repeat_off_by_one_empty),
+        "repeat_drops_one": ("repeat", repeat_drops_one),
+        "repeat_forgets_map": ("repeat", repeat_forgets_map),
         "slice_neg_start": ("__getitem__", getitem_reverse_twice),
     }
 
